@@ -98,6 +98,27 @@ func genC15Plan(r *zsim.Rng) *sysPlan {
 	if r.Chance(1, 5) {
 		p.Args = append(p.Args, "--no-separator")
 	}
+	if r.Chance(1, 5) {
+		p.Args = append(p.Args, "--ellipsis", pick(r, "", "…", ">>>", "."))
+	}
+	if r.Chance(1, 6) {
+		p.Args = append(p.Args, "--keep-right")
+	}
+	if r.Chance(1, 5) {
+		// tabs: expanded to the next multiple of the tab stop, wherever the line is cut (bounds only)
+		for k := r.Range(1, 4); k > 0; k-- {
+			var b strings.Builder
+			for w := r.Range(3, 30); w > 0; w-- {
+				for l := r.Range(1, 9); l > 0; l-- {
+					b.WriteByte(lineAlphabet[r.Intn(len(lineAlphabet))])
+				}
+				b.WriteByte(" \t\t"[r.Intn(3)])
+			}
+			fmt.Fprintf(&b, "#t%d", k)
+			p.Lines.Extra = append(p.Lines.Extra, b.String())
+		}
+		p.Gens[0] = p.Lines
+	}
 	if r.Chance(1, 7) {
 		p.Args = append(p.Args, "--wrap")
 		// lines longer than the window
@@ -192,6 +213,9 @@ func c15Settle(r *sysRun, busy bool) {
 	pointer, marker, ellipsis := "▌", "┃", "··"
 	if !unicodeOn {
 		pointer, marker, ellipsis = ">", ">", ".."
+	}
+	if hasArg(plan.Args, "--ellipsis") {
+		ellipsis = argValue(plan.Args, "--ellipsis")
 	}
 	if cols < 12 || rows < 5 {
 		// too small for the documented layout to be meaningful (robustness at tiny sizes is C14's business)
@@ -477,6 +501,11 @@ func c15Settle(r *sysRun, busy bool) {
 			return
 		}
 		wantTrim := strings.TrimRight(want, " ")
+		if strings.Contains(want, "\t") {
+			// tabs: bounds only (the terminal counts writes past the right margin)
+			c.count("probe.tab_row", 1)
+			continue
+		}
 		if dw := util.StringWidth(want); dw != runeWidthOf(want) {
 			// double-width glyphs: only the bounds are decided (the row never leaves the window - the terminal
 			// counts writes past the right margin - and a line that does not fit carries the ellipsis)
